@@ -15,7 +15,17 @@ package scen
 //
 //	heard-over-2k            "at most 2K closer peers from one response enter a lookup": a Response lookup
 //	                         event of a queried peer lists more than 2K heard peers (K = the bucket size
-//	                         the scenario configured)
+//	                         the scenario configured). The clause names no configuration, so the node's
+//	                         configuration is part of the generated space: half of the lookup-overfeed runs
+//	                         build the node with the public RoutingTablePeerDiversityFilter option
+//	                         (NewRTPeerDiversityFilter with drawn limits per prefix length and per table);
+//	                         the many-peers replies already place every invented peer at a random IPv4
+//	                         address, i.e. in IP groups of their own, so an IP-diversity step has nothing
+//	                         to object to and the 2K bound is the only thing between the reply and the
+//	                         lookup. The rule itself is unchanged. In these runs the harness gives every
+//	                         connection a remote address (the dialled peer's first address; seeds are
+//	                         connected while they are put into the table), because the diversity filter
+//	                         admits a peer to the table only by its connection addresses.
 //	op-wedged                "cannot permanently block": the routing call (or its result channel) did not
 //	                         finish although every RPC and dial was answered and 10 min of virtual time passed
 //	caller-panic             "cannot crash", caller's goroutine (SUT-owned goroutines: driver rule "crash")
@@ -38,6 +48,7 @@ import (
 	"github.com/ipfs/go-cid"
 	dht "github.com/libp2p/go-libp2p-kad-dht"
 	pb "github.com/libp2p/go-libp2p-kad-dht/pb"
+	"github.com/libp2p/go-libp2p/core/host"
 	"github.com/libp2p/go-libp2p/core/peer"
 	mh "github.com/multiformats/go-multihash"
 
@@ -55,7 +66,8 @@ func init() {
 			"fault_wrong_type", "fault_unknown_type", "fault_key_empty", "fault_key_other",
 			"fault_record_absent", "fault_record_other_key", "fault_record_empty_key", "fault_record_empty", "fault_record_other_value", "fault_record_no_value",
 			"fault_peers_many", "fault_peers_bad_addrs", "fault_peers_fat", "fault_peers_bad_ids", "fault_peers_mixed", "fault_unknown_conn", "fault_unknown_fields", "fault_cluster_level",
-			"probe_2k_cap_applied", "probe_wrong_key_rejected", "probe_provider_yielded", "probe_value_yielded", "probe_findpeer_found", "probe_findpeer_size_checked", "probe_corrective_put", "probe_ghost_dialled"}})
+			"probe_2k_cap_applied", "probe_wrong_key_rejected", "probe_provider_yielded", "probe_value_yielded", "probe_findpeer_found", "probe_findpeer_size_checked", "probe_corrective_put", "probe_ghost_dialled",
+			"cfg_diversity_filter", "probe_diversity_table_admit", "probe_diversity_node_overfed"}})
 	sim.Register(&sim.Scenario{Prop: "C10", Name: "putvalue-echo-dht", Weight: 2, Run: func(s *sim.Sim) { runC10Lookup(s, true) },
 		Real: real, Stub: stub, Faults: []string{"fault_put_echo_without_record", "probe_put_echo_nil_survived", "probe_corrective_put"}})
 }
@@ -70,6 +82,11 @@ const (
 	c10Ops
 )
 
+// c10LateHost lets the diversity filter, which wants the host at construction
+// time, be built before newH1 creates the host; the filter only uses it to look
+// up connection addresses when a peer is offered to the routing table.
+type c10LateHost struct{ host.Host }
+
 var c10OpNames = []string{"GetClosestPeers", "FindProvidersAsync", "GetValue", "SearchValue", "FindPeer", "PutValue"}
 
 func runC10Lookup(s *sim.Sim, echoNil bool) {
@@ -83,11 +100,33 @@ func runC10Lookup(s *sim.Sim, echoNil bool) {
 	if echoNil {
 		opKind = []int{c10OpPutValue, c10OpSearchValue}[s.Draw("echo-op", 2)]
 	}
+	// node configuration: with / without the routing-table peer diversity filter
+	divFilter := !echoNil && s.Chance("diversity-filter", 1, 2)
+	divPerCpl, divPerTable := 0, 0
+	if divFilter {
+		divPerCpl = []int{1, 2, 3, 50}[s.Draw("diversity-per-cpl", 4)]
+		divPerTable = []int{1, 2, 3, 50}[s.Draw("diversity-per-table", 4)]
+		s.Count("cfg_diversity_filter")
+	}
 	u := simnet.NewUniverse(uint64(s.Draw("universe", 1<<16)), n)
 	real := u.Peers[:n]
-	h, err := newH1(s, u, K, alpha, beta, dht.Validator(rankValidator{}))
+	opts := []dht.Option{dht.Validator(rankValidator{})}
+	late := &c10LateHost{}
+	if divFilter {
+		opts = append(opts, dht.RoutingTablePeerDiversityFilter(dht.NewRTPeerDiversityFilter(late, divPerCpl, divPerTable)))
+	}
+	h, err := newH1(s, u, K, alpha, beta, opts...)
 	if err != nil {
 		panic(err)
+	}
+	late.Host = h.Host
+	// connect opens the connection to a peer that exists, with the peer's
+	// first address as its remote address (diversity-filter runs only).
+	connect := func(x *simnet.Peer) {
+		if divFilter && x != nil && len(x.Addrs) > 0 {
+			h.Host.Net().SetConnected(x.ID, true)
+			h.Host.Net().SetRemoteAddr(x.ID, x.Addrs[0])
+		}
 	}
 	dht.VerifSetShuffle(h.DHT, func(n int, swap func(i, j int)) {
 		for i := 0; i < n/2; i++ {
@@ -146,7 +185,19 @@ func runC10Lookup(s *sim.Sim, echoNil bool) {
 			}
 		}
 	}
-	h.Seed(seeds)
+	for _, p := range seeds {
+		connect(p)
+	}
+	inTable := h.Seed(seeds)
+	if divFilter {
+		// the lookup starts without connections, as in the other half of the space
+		for _, p := range seeds {
+			h.Host.Net().SetConnected(p.ID, false)
+		}
+		if len(inTable) > 0 {
+			s.Count("probe_diversity_table_admit")
+		}
+	}
 
 	poison := map[string]bool{}
 	w := &c10World{S: s, U: u, Self: u.Self.ID, K: K, EchoNil: echoNil}
@@ -163,7 +214,7 @@ func runC10Lookup(s *sim.Sim, echoNil bool) {
 		}
 		return rankValue(r, time.Time{}, k)
 	}
-	s.Summary["cfg"] = fmt.Sprintf("op=%s N=%d K=%d alpha=%d beta=%d seeds=%d hostility=%d/4 echoNil=%v", c10OpNames[opKind], n, K, alpha, beta, len(seeds), hostile, echoNil)
+	s.Summary["cfg"] = fmt.Sprintf("op=%s N=%d K=%d alpha=%d beta=%d seeds=%d hostility=%d/4 echoNil=%v diversity=%v/%d/%d", c10OpNames[opKind], n, K, alpha, beta, len(seeds), hostile, echoNil, divFilter, divPerCpl, divPerTable)
 
 	// ---- lookup events
 	evCtx, evCancel := context.WithCancel(context.Background())
@@ -201,6 +252,9 @@ func runC10Lookup(s *sim.Sim, echoNil bool) {
 					s.Violate("heard-over-2k", "the Response event for the reply of %s lists %d heard peers; K=%d, so at most %d peers of one reply may enter the lookup (the reply named %d closer peers)", u.Name(cause), len(r.Heard), K, 2*K, replyCloser[cause])
 				} else if replyCloser[cause] > 2*K {
 					s.Count("probe_2k_cap_applied")
+					if divFilter && len(r.Heard) > 0 {
+						s.Count("probe_diversity_node_overfed")
+					}
 				}
 			default:
 				return
@@ -290,6 +344,7 @@ func runC10Lookup(s *sim.Sim, echoNil bool) {
 						s.Release(p, simhost.ErrDialFailed)
 						return
 					}
+					connect(x)
 					s.Release(p, nil)
 				}})
 			case "rpc":
